@@ -251,6 +251,40 @@ theorem heap_merge_sharing (o : ListStrategy) (f : Nat) (h h' : Heap) (hc : h.Cl
   · exact Or.inr hS
   · exact Or.inl hnew
 
+/-- The same two statements for OverlayDocument.Merged (`mergeAll`: a new empty container, then
+    Merge with every layer in order): the result abstracts to the value-level `mergeAll` of the
+    layers' abstractions … -/
+theorem heap_mergeAll_abs (o : ListStrategy) (f : Nat) (h : Heap) (hnil : h.NilOk)
+    (layers : List Addr) (lsN : List (AMap Node))
+    (hl : optMapM (absH f h) layers = some (lsN.map Node.cont)) (hf : 0 < f) :
+    ∃ h' r, mergeAllF o f (h.alloc (.cont [])).1 h.size layers = some (h', r) ∧
+      absH f h' r = some (.cont (Ytk.mergeAll o lsN)) := by
+  obtain ⟨d, rfl⟩ : ∃ d, f = d + 1 := ⟨f - 1, by omega⟩
+  have hl0 := Heap.le_alloc h (.cont [])
+  exact mergeAllF_abs o (d + 1) layers _ h.size [] lsN (nilOk_mono hnil hl0)
+    (absH_alloc_cont (f := d) (h := h) (ys := []) (ns := []) rfl) (optMapM_mono hl0 hl)
+
+/-- … and everything reachable from the (new) result root is new, or reachable from one of the
+    layers, or the shared nil leaf. -/
+theorem heap_mergeAll_sharing (o : ListStrategy) (h h' : Heap) (hc : h.Closed) (hnil : h.NilOk)
+    (layers : List Addr) (hl : ∀ l ∈ layers, l < h.size) (r : Addr)
+    (hm : Ytk.Heap.mergeAll o h layers = some (h', r)) :
+    h.size ≤ r ∧ ∀ b, Reach h' r b →
+      (h.size ≤ b ∧ b < h'.size) ∨ (∃ l ∈ layers, Reach h l b) ∨ b = nilAddr := by
+  let S : Addr → Prop := fun b => (∃ l ∈ layers, Reach h l b) ∨ b = nilAddr
+  have ctx : ShareCtx h S := shareCtx_of_layers hc hnil hl
+  have hm' : mergeAllF o (h.alloc (.cont [])).1.size (h.alloc (.cont [])).1 h.size layers =
+      some (h', r) := hm
+  have hi0 : MInv h S (h.alloc (.cont [])).1 :=
+    (MInv.init h S).alloc (c := .cont []) (by intro k hk; simp [Cell.kids] at hk)
+  obtain ⟨_, hi, hg, hr⟩ := mergeAllF_share ctx o _ layers _ h' h.size r hi0
+    (Good.alloc_new (MInv.init h S) _) (Nat.le_refl _)
+    (fun l hl' => Or.inl (Or.inl ⟨l, hl', .refl _⟩)) hm'
+  refine ⟨hr, fun b hb => ?_⟩
+  rcases Good.reach ctx hi hb hg with hS | hnew
+  · exact Or.inr hS
+  · exact Or.inl hnew
+
 /-- SPINE: whenever two containers (two lists) are merged — at the root and at every recursive
     call, i.e. at every node of the merged spine — the result is a newly allocated container
     (list), never one of the inputs' cells. -/
@@ -270,6 +304,13 @@ theorem heap_merge_result_writes (o : ListStrategy) (f : Nat) (h h1 h2 : Heap) (
     h ≤ h2 ∧ ∀ (g : Nat) (x : Addr) (n : Node), absH g h x = some n → absH g h2 x = some n := by
   have hl := hw.le_of_fresh (mergeContainersF_le hm)
   exact ⟨hl, fun g x n hn => absH_mono hl g x n hn⟩
+
+/-- … for literal builder histories (`Op`, `applyOps`) on the new cells. -/
+theorem heap_merge_result_ops (o : ListStrategy) (f : Nat) (h h1 h2 : Heap) (c1 c2 r : Addr)
+    (ops : List Op) (hm : mergeContainersF o f h c1 c2 = some (h1, r))
+    (hq : ∀ op ∈ ops, h.size ≤ op.target) (he : applyOps h1 ops = some h2) :
+    ∀ (g : Nat) (x : Addr) (n : Node), absH g h x = some n → absH g h2 x = some n :=
+  (heap_merge_result_writes o f h h1 h2 c1 c2 r hm (applyOps_writes hq he)).2
 
 /-! ### Non-vacuity on a concrete heap
 
